@@ -730,7 +730,15 @@ func parseCharacterEscape(text []byte) (end int) {
 
 func isEntity(x []byte) bool {
 	s := html.UnescapeString(string(x))
-	return !strings.HasPrefix(s, "&") || !strings.HasSuffix(s, ";")
+	if strings.HasPrefix(s, "&") && strings.HasSuffix(s, ";") {
+		return false
+	}
+	// html.UnescapeString also expands the legacy entities
+	// that browsers accept without a semicolon (like "&uml")
+	// when they are merely a prefix of the name ("&umll;" becomes "¨l;").
+	// That is not an entity reference.
+	withoutSemicolon := string(x[:len(x)-1])
+	return s != html.UnescapeString(withoutSemicolon)+";"
 }
 
 func (p *InlineParser) parseDelimiterRun(state *inlineState, start int) (end int) {
